@@ -307,6 +307,13 @@ PLAN = [
     # a step listed a second time, after another step has invalidated its first result
     ("correct_force_offset", ["compute_tip_position", "correct_force_offset", "correct_tip_offset",
                               "correct_force_slope"], "slopes-all"),
+    # the tip-sample separation asked for again after the force (and the separation itself) were corrected
+    ("compute_tip_position", ["compute_tip_position", "correct_tip_offset", "correct_force_offset"], "methods"),
+    # ... and the step functions called directly on a curve that went through a pipeline already
+    ("compute_tip_position", ["compute_tip_position", "correct_tip_offset", "correct_force_offset"], "methods",
+     "direct"),
+    ("correct_force_offset", ["compute_tip_position", "correct_force_offset", "correct_tip_offset",
+                              "correct_force_slope"], "slopes-all", "direct"),
 ]
 
 
@@ -329,7 +336,7 @@ def option_sets(kind, methods, rng, full):
 
 def explore(ctx, idnt, meta, methods, full):
     rng = ctx.rng
-    for step, prefix, optkind in PLAN:
+    for step, prefix, optkind, *how in PLAN:
         for opts in option_sets(optkind, methods, rng, full):
             if step == "smooth_height" and prefix and "height (measured)" not in idnt:
                 continue
@@ -338,17 +345,29 @@ def explore(ctx, idnt, meta, methods, full):
                 # smoothing step presupposes segment discovery here - not part of what is asserted
                 continue
             try:
-                b, a, det = before_after(idnt, prefix, step, opts)
+                if how:
+                    from nanite import preproc
+                    apply(idnt, prefix, opts)
+                    b = columns(idnt)
+                    with warnings.catch_warnings():
+                        warnings.simplefilter("ignore")
+                        preproc.get_func(step)(idnt, **opts.get(step, {}))
+                    a, det = columns(idnt), None
+                else:
+                    b, a, det = before_after(idnt, prefix, step, opts)
             except BaseException as e:  # noqa
                 ctx.violation(f"step-raises:{step}:{type(e).__name__}", f"{step} with options {opts} raises "
                               f"{type(e).__name__}: {str(e)[:150]} on a well-formed curve",
                               {"input": {"curve": meta, "step": step, "options": opts}})
                 continue
-            ctx.case({"curve": {k: meta[k] for k in list(meta)[:8]}, "step": step, "options": opts},
-                     nontrivial=json.dumps([meta, step, opts], sort_keys=True, default=str),
-                     bucket=["step=" + step, "curve=" + meta.get("kind", "synthetic")] +
+            ctx.case({"curve": {k: meta[k] for k in list(meta)[:8]}, "step": step, "options": opts,
+                      "after": prefix, "call": "function" if how else "pipeline"},
+                     nontrivial=json.dumps([meta, step, opts, prefix, how], sort_keys=True, default=str),
+                     bucket=["step=" + step, "curve=" + meta.get("kind", "synthetic"),
+                             "call=" + ("function" if how else "pipeline")] +
                             [f"opt:{k}={v}" for o in opts.values() for k, v in o.items()])
-            oracle(ctx, idnt, meta, step, opts, b, a, det)
+            oracle(ctx, idnt, dict(meta, applied_after=prefix, call="function" if how else "pipeline"), step, opts,
+                   b, a, det)
 
 
 # ----------------------------------------------------------------------------- model tie
@@ -407,7 +426,8 @@ def tie(ctx, n_curves):
             if m is not None:
                 lines.append({"op": "slope", "region": region, "m": q(m), "c": q(c), "xs": ql(xs),
                               "tip": ql(b["tip position"]), "f": ql(b["force"])})
-                expect.append(("slope", {**case, "region": region, "strategy": strategy}, a["force"], (idp, m, c)))
+                expect.append(("slope", {**case, "region": region, "strategy": strategy}, a["force"],
+                               (idp, m, c, np.asarray(xs[:idp], dtype=float), float(np.max(np.abs(b["force"]))))))
         # segment discovery
         b, a, _ = before_after(idnt, ["compute_tip_position"], "correct_split_approach_retract", {})
         lines.append({"op": "split", "tip": ql(b["tip position"]), "f": ql(b["force"])})
@@ -458,7 +478,7 @@ def tie(ctx, n_curves):
             if not close(impl, pl(vals), 1e-12):
                 ctx.disagree(case, f"idp={aux}", idp_m, "correct_force_offset: implementation and Lean model differ")
         elif op == "slope":
-            idp, m, c = aux
+            idp, m, c, xb, fscale = aux
             head, vals = o.split(" out=")
             parts = dict(t.split("=") for t in head.split())
             if int(parts["idp"]) != idp:
@@ -467,7 +487,11 @@ def tie(ctx, n_curves):
                 continue
             mm, cm = qf(parts["m"]), qf(parts["c"])
             ref = max(abs(mm), 1e-300)
-            if abs(mm - m) > 1e-6 * ref + 1e-9:
+            # (lmfit minimises iteratively: its line agrees with the closed form to the optimiser's precision
+            # RELATIVE TO THE DATA - with a force offset of many times the slope's contribution the slope itself
+            # is only known to that absolute precision; seen for an integer curve with offset -2e5 and slope 0.19)
+            gap = float(np.max(np.abs((mm - m) * xb + (cm - c)))) if len(xb) else 0.0
+            if abs(mm - m) > 1e-6 * ref + 1e-9 and gap > 1e-7 * fscale:
                 ctx.disagree(case, [m, c], [mm, cm], "correct_force_slope: lmfit's LinearModel fit is not the "
                              "closed-form least-squares line of the baseline")
             if not close(impl, pl(vals), 1e-9):
